@@ -421,3 +421,4 @@ M("C13", "marker-in-one-element-list-neutral", NODES, 'ips_file.read(3)) != b"EO
 M("C04", "stride-is-window-size", MAP, "return (bank - self.bank_range[0]) * self.mask + (value & ~self.mask & 0xFFFF)", "return (bank - self.bank_range[0]) * (self.address_range[1] - self.address_range[0] + 1) + (value & ~self.mask & 0xFFFF)", "C04.R5")
 M("C03", "stride-is-window-size", MAP, "return (bank - self.bank_range[0]) * self.mask + (value & ~self.mask & 0xFFFF)", "return (bank - self.bank_range[0]) * (self.address_range[1] - self.address_range[0] + 1) + (value & ~self.mask & 0xFFFF)", "C03.R5")
 M("C01", "suffix-case-kept", PST, "        size = p.current().value.lower()\n        p.next()\n", "        size = p.next().value\n", "C01.R12")
+M("C04", "physical-address-spelled-out-neutral", MAP, "            return (bank - self.bank_range[0]) * self.mask + (value & ~self.mask & 0xFFFF)", "            low = self.address_range[0]\n            in_bank = value & ~self.mask & 0xFFFF\n            return bank * self.mask - self.bank_range[0] * self.mask + in_bank + low - self.address_range[0]", neutral=True)
